@@ -94,7 +94,22 @@ def _case(draw):
         L, N = (24, 16) if fam == 2 else (27, 25)        # [1, 2] / [1]   and   {"k": 1, "j": 2} / {"k": 1}
         ta, tb = draw(st.sampled_from([(0, 1), (1, 0), (0, 2), (2, 0)]))
         ops = [("set", ta, n_, L, "attr"), ("reuse", tb, n_, 0), ("set", ta, n_, N, "attr"), ("mutate", 1), ("reuse", tb, n_, 1)] + list(ops)
-    return {"fam": fam, "watchers": ws, "ops": [list(o) for o in ops]}
+    case = {"fam": fam, "watchers": ws, "ops": [list(o) for o in ops]}
+    if draw(st.integers(0, 2)) == 0:
+        # c is declared per_instance=False: one Parameter object serves the class and every instance (the instance- and
+        # class-level watchers are kept apart all the same)
+        case["shared_c"] = True
+        if draw(st.booleans()):
+            # a class-level and an instance-level watcher of c; the instance-level one is removed, then the instance is assigned
+            ti = draw(st.integers(0, 1))
+            base = {"what": "value", "onlychanged": draw(st.booleans()), "queued": False, "precedence": 0, "mode": "args", "script": []}
+            ws.append(dict(base, target=2, names=[2]))
+            ws.append(dict(base, target=ti, names=[2]))
+            ops = case["ops"]
+            at = draw(st.integers(0, len(ops)))
+            ops.insert(at, ["unwatch_exact", len(ws) - 1])
+            ops.insert(draw(st.integers(at + 1, len(ops))), ["set", ti, 2, draw(val_strategy(fam)), "attr"])
+    return case
 
 
 def strategy(tier):
@@ -117,6 +132,13 @@ def enumerate_cases(tier):
         pairs = [(i, j) for i in range(NPOOL) for j in range(NPOOL)]
     for i, j in pairs:
         yield {"fam": 0, "watchers": ws, "ops": [["set", 0, 0, i, "attr"], ["set", 0, 0, j, "attr"]]}
+    # ... and the identical object assigned twice (a NaN is not equal to itself: still a change), by attribute / update,
+    # on an instance / the class, with a per-instance or a class-wide (per_instance=False) Parameter object
+    for i in range(NPOOL):
+        for t in (0, 2):
+            for shared in (False, True):
+                yield {"fam": 0, "watchers": [dict(w, target=t, names=[2]) for w in ws], "shared_c": shared,
+                       "ops": [["set", t, 2, i, "attr"], ["reuse", t, 2, 0], ["set", t, 2, i, "update"], ["reuse", t, 2, 1]]}
 
 
 class Model:
@@ -271,9 +293,11 @@ def _fmt(tr):
 def execute(case):
     res = Result()
     specs = case["watchers"]
-    world = World(specs)
+    world = World(specs, shared_c=bool(case.get("shared_c")))
     model = Model(specs, world.script_vals)
     rewatched = False
+    if case.get("shared_c"):
+        res.label("class_wide_parameter_object")
     assigned = []          # the objects assigned by the `set` operations so far (for `reuse` / `mutate`)
     dup_related = set()
     for w, sp in enumerate(specs):
